@@ -332,3 +332,133 @@ def program(draw, tier="quick", max_sites=3, **kw):
     else:
         tests = [list(range(n))]
     return {"sites": sites, "tests": tests}
+
+
+# ------------------------------------------------------------------- sites with a previous value
+
+from . import gen_render as gr  # noqa: E402
+
+
+@st.composite
+def prev_for_eq(draw, v, tier):
+    """previous value description for an == site observing v"""
+    c = draw(st.integers(0, 9))
+    if c == 0:
+        p = v
+    elif c == 1:
+        p = draw(gv.values(tier, 6))
+    else:
+        p = draw(gr.mutate(v, tier))
+    if not gv.sound(p):
+        p = v
+    return p
+
+
+@st.composite
+def site_with_prev(draw, tier="quick", ops=("eq", "le", "ge", "in", "getitem"), styles=("assert",),
+                   places=PLACES, max_leaves=None, noise=None, p_missing=0.15):
+    """site whose previous argument text is a (noisy) rendering of a generated previous value.
+    adds "prev_desc" (None when the call is empty)."""
+    op = draw(st.sampled_from(list(ops)))
+    place = draw(st.sampled_from(list(places)))
+    style = draw(st.sampled_from(list(styles)))
+    missing = draw(st.integers(0, 99)) < p_missing * 100
+
+    def text(d):
+        return draw(gr.noisy(d, noise, top_display=(op == "getitem")))
+
+    if op == "eq":
+        events = draw(simple_events("eq", tier, max_leaves))
+        pd = None if missing else draw(prev_for_eq(events[0], tier))
+    elif op in ("le", "ge"):
+        fam = draw(ordered_family_with_prev(tier))
+        events, pd = fam[:-1], (None if missing else fam[-1])
+    elif op == "in":
+        events = draw(simple_events("in", tier, max_leaves))
+        if missing:
+            pd = None
+        else:
+            keep = [e for e in events if draw(st.booleans())]
+            extra = draw(st.lists(gv.hashable_leaves(tier), max_size=2))
+            items = keep + extra
+            items = draw(st.permutations(items)) if items else items
+            pd = ["list", list(items)]
+    else:
+        events = draw(getitem_events(tier, max_leaves))
+        if missing:
+            pd = None
+        else:
+            per = {}
+            order = []
+            for k, so, x in events:
+                kk = repr(k)
+                if kk not in per:
+                    per[kk] = (k, so, [])
+                    order.append(kk)
+                per[kk][2].append(x)
+            kv = []
+            for kk in order:
+                k, so, xs = per[kk]
+                if draw(st.integers(0, 3)) == 0:
+                    continue  # key missing in prev -> create
+                if so == "eq":
+                    cp = draw(prev_for_eq(xs[0], tier))
+                elif so in ("le", "ge"):
+                    cp = draw(st.sampled_from(xs)) if draw(st.booleans()) else _shift(draw, xs)
+                else:
+                    keep = [e for e in xs if draw(st.booleans())]
+                    extra = draw(st.lists(gv.hashable_leaves(tier), max_size=1))
+                    cp = ["list", keep + extra]
+                kv.append([k, cp])
+            for _ in range(draw(st.integers(0, 2))):
+                nk = draw(st.integers(10, 14).map(lambda i: ["int", i]))
+                if all(gv.build(nk) != gv.build(a) for a, _b in kv) and all(
+                        gv.build(nk) != gv.build(e[0]) for e in events):
+                    kv.append([nk, draw(gv.hashable_leaves(tier))])
+            pd = ["dict", kv]
+    s = {"op": op, "events": events, "place": place, "style": style, "rev": False,
+         "prev_desc": pd, "prev": None if pd is None else text(pd)}
+    if op in ("eq", "le", "ge") and place != "helper":
+        s["rev"] = draw(st.booleans())
+    return s
+
+
+def _shift(draw, xs):
+    """a bound candidate from the same ordered family that may lie outside the observations"""
+    x = draw(st.sampled_from(xs))
+    k = x[0]
+    if k == "int":
+        return ["int", x[1] + draw(st.integers(-3, 3))]
+    if k == "float":
+        return ["float", repr(float(x[1]) + draw(st.sampled_from([-1.5, 0.0, 2.0])))]
+    if k == "str":
+        return ["str", x[1] + draw(st.sampled_from(["", "a", "b"]))] if draw(st.booleans()) else ["str", x[1][:-1]]
+    if k == "bytes":
+        return ["bytes", list(x[1]) + draw(st.sampled_from([[], [0], [255]]))]
+    return x
+
+
+@st.composite
+def ordered_family_with_prev(draw, tier):
+    xs = draw(gv.ordered_family(tier))
+    p = draw(st.sampled_from(xs)) if draw(st.booleans()) else _shift(draw, xs)
+    return list(xs) + [p]
+
+
+@st.composite
+def program_with_prev(draw, tier="quick", max_sites=3, **kw):
+    n = draw(st.integers(1, max_sites))
+    sites = [draw(site_with_prev(tier, **kw)) for _ in range(n)]
+    if n > 1 and draw(st.booleans()):
+        cut = draw(st.integers(1, n - 1))
+        tests = [list(range(cut)), list(range(cut, n))]
+        for i, s in enumerate(sites):
+            if s["place"] == "module" and len(s["events"]) >= 2 and i < cut and draw(st.booleans()):
+                tests[1].append(i)
+    else:
+        tests = [list(range(n))]
+    return {"sites": sites, "tests": tests}
+
+
+def prev_value(site):
+    return MISSING if site.get("prev_desc") is None else gv.build(site["prev_desc"])
